@@ -17,7 +17,7 @@ from sim import core          # noqa: E402
 PROP = 'C16'
 
 ASSUMPTIONS = [
-    'the C lexer/parser extension (giscanner/_giscanner) cannot be built here and is replaced by sim/cfront.py, which emits the symbol shapes of DESIGN.md Appendix A wrapped in the real SourceSymbol/SourceType classes; the stub is calibrated on every run: headeronly.h, symbolfilter.h, identfilter.h, typedefs.h, gettype.[ch] and barapp.h are transcribed and must regenerate their in-tree expected GIRs byte for byte (the last three through the dump path; only the shared-library attribute, which needs ldd on a real binary, is blanked)',
+    'the C lexer/parser extension (giscanner/_giscanner) cannot be built here and is replaced by sim/cfront.py, which emits the symbol shapes of DESIGN.md Appendix A wrapped in the real SourceSymbol/SourceType classes; the stub is calibrated on every run: headeronly.h, symbolfilter.h, identfilter.h, typedefs.h, gettype.[ch], barapp.h, sletter.h and gtkfrob.h are transcribed and must regenerate their in-tree expected GIRs byte for byte (the last five through the dump path; only the shared-library attribute, which needs ldd on a real binary, is blanked)',
     'everything from scanner_main downwards is the real code of /repo: option parsing, Transformer (includes, cache), GtkDocCommentBlockParser on raw comment text, Transformer.parse, MainTransformer, IntrospectablePass, GIRWriter, write_output',
     'generated jobs avoid constructs whose result legitimately depends on arrival order (duplicate comment-block names, several typedefs of one struct tag, rename-to clashes); source files are only reordered in ways legal C allows (declaration before use)',
     'hash seeds are sampled from a pool plus derived values; cache histories run on a real scratch directory with far-past/far-future mtimes so no outcome depends on the wall clock',
